@@ -2,7 +2,7 @@
 //! engine: every sink answer schedule with <= d deviations, policy sinks,
 //! buffered and pre-filled containers).
 
-use std::io::{BufWriter, Write};
+use std::io::BufWriter;
 
 use fst::raw::{self, Fst};
 use serde_json::{json, Value};
